@@ -31,6 +31,11 @@ def restore():
 def main():
     d = sys.argv[1]
     pids = sys.argv[2:]
+    keep = None
+    if '--keep' in pids:
+        i = pids.index('--keep')
+        keep = pids[i + 1]
+        del pids[i:i + 2]
     if 'all' in pids:
         pids = ALL
     patch = os.path.join(d, 'patch.diff')
@@ -74,6 +79,31 @@ def main():
         restore()
         sh('rm -rf replays', cwd=ROOT)
     print(json.dumps(rep, indent=1))
+    confirmed = (rep.get('demo_without_patch') == 'pass' and rep.get('demo_with_patch') == 'FAIL'
+                 and rep.get('suite', '').startswith('346 tests run: 346 passed'))
+    if keep and confirmed:
+        out = os.path.join(ROOT, 'seeded', keep)
+        os.makedirs(out, exist_ok=True)
+        sh(['cp', patch, os.path.join(out, 'patch.diff')])
+        sh(['cp', demo, os.path.join(out, 'demo.rs')])
+        try:
+            meta = json.load(open(os.path.join(d, 'meta.json')))
+        except Exception:   # noqa
+            meta = {}
+        meta['confirmed_by'] = dict(
+            ran=['cargo test -p derive-ex-tests --test seeded_demo (demo as derive-ex-tests/tests/seeded_demo.rs): '
+                 'passes without the patch, fails with it',
+                 'cargo nextest run --workspace --no-fail-fast --offline with the patch: ' + rep.get('suite', ''),
+                 './check <pid> --tier quick with the patch applied to /repo, then git -C /repo checkout -- .'],
+            checks=dict((k, dict(exit=v['exit'], first=(v['lines'] or [''])[0][:160],
+                                 replay_class=v.get('replay', {}).get('class'),
+                                 replay_input=v.get('replay', {}).get('input')))
+                        for k, v in rep['checks'].items()),
+            caught_by=[k for k, v in rep['checks'].items() if v['exit'] == 1])
+        json.dump(meta, open(os.path.join(out, 'meta.json'), 'w'), indent=1)
+        print('kept as', out)
+    elif keep:
+        print('NOT kept: claim not confirmed')
     return 0
 
 
